@@ -187,6 +187,7 @@ LoadStatus DepsLog::Load(const string& path, State* state, string* err) {
 
   long offset = ftell(f);
   bool read_failed = false;
+  bool partial_header = false;
   int unique_dep_record_count = 0;
   int total_dep_record_count = 0;
   for (;;) {
@@ -194,6 +195,8 @@ LoadStatus DepsLog::Load(const string& path, State* state, string* err) {
     if (fread(&size, sizeof(size), 1, f) < 1) {
       if (!feof(f))
         read_failed = true;
+      else if (ftell(f) != offset)
+        partial_header = true;
       break;
     }
     bool is_deps = (size >> 31) != 0;
@@ -298,6 +301,14 @@ LoadStatus DepsLog::Load(const string& path, State* state, string* err) {
   }
 
   fclose(f);
+
+  if (partial_header) {
+    // The file ends within the first bytes of a record header (an
+    // interrupted write).  Cut them off so that later appends start at a
+    // record boundary.
+    if (!Truncate(path, offset, err))
+      return LOAD_ERROR;
+  }
 
   // Rebuild the log if there are too many dead records.
   int kMinCompactionEntryCount = 1000;
